@@ -247,9 +247,12 @@ Fixpoint unfold_obs (prev : list answer) (steps : list cstep) : list answer :=
 
 Definition observed (c : case) : list answer := unfold_obs [] (snd c).
 Definition history (c : case) : list op := expand (c_uni c) (c_order c) (snd c).
-Definition model_out (c : case) : list answer := run cur (init (c_t0 c)) (history c).
+(* the code now (9be4974e) splits every enumeration with str.split(): Tokens.run_now = the model on the re-split history *)
+Definition model_out (c : case) : list answer := run cur (init (c_t0 c)) (canon_hist (history c)).
 (* what the code before 7137d601 answers in the case's zone *)
-Definition model_out_zone_v0 (c : case) : list answer := run (zone_v0 (c_gaps c)) (init (c_t0 c)) (history c).
+Definition model_out_zone_v0 (c : case) : list answer := run (zone_v0 (c_gaps c)) (init (c_t0 c)) (canon_hist (history c)).
+(* what the code before 9be4974e answers: the enumerations split at blanks only *)
+Definition model_out_items_v0 (c : case) : list answer := run cur (init (c_t0 c)) (history c).
 
 Definition agrees (c : case) : bool := answers_eqb (model_out c) (observed c).
 (* the property, evaluated on what the IMPLEMENTATION answered.  The reference reads every protocolSupportEnumeration
@@ -270,11 +273,11 @@ Definition holds (c : case) : bool := Nat.eqb (verdict c) 0.
      8 (repaired by 7137d601) the process zone has a daylight-saving gap and the implementation answered exactly what the
        model of the code BEFORE the commit answers with that gap (an MDQ entry served past its freshness period
        because add_duration went through the local calendar), which fails the zone-free reference.
-     9 (open) an enumeration whose items are separated by a tab / line feed / carriage return (character reference):
+     9 (repaired by 9be4974e) an enumeration whose items are separated by a tab / line feed / carriage return (character reference):
        the implementation did what the reference does when it splits at blanks only (a SAML 2.0 role is not served;
        the converse cannot happen: a piece that equals the name holds none of these characters and is an item), which
        fails the reference on items.
-   Classes 1-8 are repaired in /repo (status "fixed"): they are still recognised, so that a regression is
+   Classes 1-9 are repaired in /repo (status "fixed"): they are still recognised, so that a regression is
    reported with its class and the failing input. *)
 Definition cls (c : case) : nat :=
   if negb (clean_hist (history c)) && Nat.eqb (verdict_sp c) 0 then 9 else
